@@ -11,6 +11,7 @@ edist <a> <b>                                 → ~v
 sk <H mu> <H nu> <M>                          → ok L ~.. R ~.. C ~cost S ~colsum.. [P ~plan..] | panic
 var <H x> <H y>                               → ~v
 greedy <H src> <H tgt> <M>                    → ok C ~cost K <n> (<key> ~v)* | panic
+emd <H x> <H y> <M>                           → ~v | panic          (Metric::emd dispatch)
 H = <n> <mass> (<code> <count>)*      M = <k> (<key> <f32 bits>)*
 ```
 Floats enter as raw `f32` bit patterns and leave as `~decimal`. -/
@@ -82,6 +83,23 @@ def runSk (mu nu : Hist) (m : Metric F) : String :=
       s!"ok L {fmts (s.lhs.map Prod.snd)} R {fmts (s.rhs.map Prod.snd)} C {fmt32 c} S {fmts cols}"
         ++ (if small then s!" P {fmts p.flatten}" else "")
 
+/-- `Metric.emd` with the hashed distance table (same dispatch, same `skLoop`/`cost`/`variation`) -/
+def runEmd (x y : Hist) (m : Metric F) : String :=
+  match x.counts with
+  | [] => "panic"
+  | (a, _) :: _ =>
+    if variantOf a = 1 then
+      let t := fastTable m
+      let dO := fastDistance t
+      let covers := x.support.all fun u => y.support.all fun v => (dO u v).isSome && (dO v u).isSome
+      if y.counts.isEmpty || !covers then "panic" else
+      let d : Nat → Nat → F := fun u v => (dO u v).getD (Float32.ofNat 0)
+      match skLoop d Tf tolf x y RP.Gen.C12.iterations (skInit x y) with
+      | none => "panic"
+      | some s => match cost d Tf s with | none => "panic" | some c => fmt32 c
+    else if variantOf a = 0 then fmt32 (variation x y : F)
+    else "panic"
+
 def runGreedy (src tgt : Hist) (m : Metric F) : String :=
   let t := fastTable m
   match greedy (fastDistance t) src tgt with
@@ -129,6 +147,16 @@ def handle (line : String) : String :=
       match parseHist r1 with
       | some (y, []) => fmt32 (variation x y : F)
       | _ => "bad-op"
+    | none => "bad-op"
+  | "emd" :: rest =>
+    match parseHist rest with
+    | some (x, r1) =>
+      match parseHist r1 with
+      | some (y, r2) =>
+        match parseMetric r2 with
+        | some (m, []) => runEmd x y m
+        | _ => "bad-op"
+      | none => "bad-op"
     | none => "bad-op"
   | "greedy" :: rest =>
     match parseHist rest with
